@@ -302,7 +302,9 @@ def run_case(case: dict) -> CaseResult:
     async def then(sess: Session):
         tr = sess.dsess.transport
         dead_kinds: set[str] = set()
-        for step in case["steps"]:
+        misalign = int(case.get("misalign", 0))
+        skipped = [0]
+        for si, step in enumerate(case["steps"]):
             if sess.conn.connection_state.name != "CONNECTED":
                 break
             op = step["op"]
@@ -325,6 +327,18 @@ def run_case(case: dict) -> CaseResult:
                     h()
             elif op == "chunk":
                 data = b"".join(sess.dsess.encode(build_msg(m)) for m in step["msgs"])
+                if misalign and not case.get("noise"):
+                    # TCP reads not aligned to frames (plaintext): this read ends `misalign` bytes into the first frame
+                    # of the next chunk step, whose remaining bytes arrive at that step -- delivery instants unchanged
+                    data = data[skipped[0]:]
+                    skipped[0] = 0
+                    nxt = next((st2 for st2 in case["steps"][si + 1:] if st2["op"] == "chunk"), None)
+                    if nxt is not None:
+                        nd = b"".join(sess.dsess.encode(build_msg(m)) for m in nxt["msgs"])
+                        first = sess.dsess.encode(build_msg(nxt["msgs"][0])) if nxt["msgs"] else b""
+                        skipped[0] = max(0, min(misalign, len(first) - 1))  # never a complete frame ahead of its step
+                        data += nd[:skipped[0]]
+                        classes.add("reads_not_aligned_to_frames")
                 for m in step["msgs"]:
                     if {"adv": "adv", "rawadv": "rawadv", "connfree": "connfree", "va_req": "va", "va_audio": "va", "va_fin": "va"}.get(m["t"]) in dead_kinds:
                         classes.add("unsub_then_message")
@@ -603,10 +617,24 @@ def _va_case(draw, tier):
 
 
 def strategy(tier):
-    return st.one_of(_case(tier), _case(tier), _camera_case(tier), _va_case(tier))
+    base = st.one_of(_case(tier), _case(tier), _camera_case(tier), _va_case(tier))
+
+    @st.composite
+    def with_misalign(draw):
+        c = draw(base)
+        if not c.get("noise") and draw(st.integers(0, 3)) == 0:
+            c = {**c, "misalign": draw(st.sampled_from([1, 2, 3, 5, 9]))}
+        return c
+
+    return with_misalign()
 
 
 def enumerated(tier):
+    cam = lambda k, d, done: {"t": "camera", "key": k, "data": d, "done": done}  # noqa: E731
+    stream = [cam(1, "aa" * 40, False), cam(2, "bb" * 30, False), cam(1, "cc" * 50, True), {"t": "connfree", "free": 1, "limit": 3}, cam(2, "dd" * 20, True), cam(1, "ee", True)]
+    for mis in (1, 2, 3, 7):
+        for n in (1, 2, 3):
+            yield {"noise": False, "misalign": mis, "steps": [{"op": "sub", "id": "s0", "kind": "states"}, {"op": "sub", "id": "s1", "kind": "connfree"}] + [{"op": "chunk", "msgs": stream[i:i + n]} for i in range(0, len(stream), n)]}
     stC = state_classes()
     # every state type once with default and one non-default message, after subscribe_states
     msgs = []
